@@ -293,8 +293,14 @@ where
                     out.obs1(&format!("proof.{}", t), "H", sha_hex(&b));
                     out.obs1(&format!("proof_size.{}", t), "N", b.len().to_string());
                     out.obs(&format!("lc_evals.{}", t), "F", &lp.evals.clone().map(|e| fs_to_strs(&e)).unwrap_or(vec!["none".into()]));
+                    {
+                        let pv: Vec<Pf<A>> = lp.proof.clone().into();
+                        out.obs1(&format!("nproofs.{}", t), "N", pv.len().to_string());
+                        for (k, pf) in pv.iter().enumerate() { A::proof_obs(&format!("pf.{}.{}", t, k), pf, out); }
+                    }
                     let d = guard_any(|| A::PC::check_combinations(&vk, lcv.iter(), vperm.iter().map(|i| &comms[*i]), &qs, &evals, &lp, &mut vs, &mut vrng));
                     out.obs1(&format!("check.{}", t), "S", decision(&d));
+                    out.obs1(&format!("check_rng_bytes.{}", t), "N", vrng.bytes.to_string());
                     rec.lcproof = Some(lp);
                 }
             }
